@@ -318,6 +318,15 @@ fn main() {
 
             s.gen("render", s.n(400_000, 10_000_000), render_case, check_render_case);
 
+            // artifacts of the libFuzzer target `template_eq_render` (engine E6) are replayed through the same entry
+            s.manual("fuzz-artifact", Vec::<Vec<u8>>::new(), |bytes, cx| {
+                cx.nontrivial(true);
+                match fuzz_entry(bytes) {
+                    Ok(()) => Ok(()),
+                    Err(f) => cx.fail(f.sig, format!("{}; decoded case: {:?}", f.msg, c16::fuzz::decode(bytes))),
+                }
+            });
+
             // phase 2: macro-generated templates. One compile per batch of sites; each site is a case.
             let mut results = std::collections::BTreeMap::new();
             let mut cases: Vec<SiteCase> = Vec::new();
